@@ -30,7 +30,10 @@ RULE = (
     "(field, location) are enumerated once; non-trivial = >= 1 deviation and the oracle compared either a written "
     "file (layout + read-back of every model) or an observed refusal. bonds: a case = (residue-kind word, edge set, "
     "id scheme, container, flag); non-trivial = >= 1 edge. codec: one case per integer / field text; non-trivial = "
-    "value needs a letter (>= 10^w), is refused, or is a malformed text. A failing multi-deviation case is reduced to "
+    "value needs a letter (>= 10^w), is refused, or is a malformed text. reuse: a case = an operation sequence on one "
+    "PDBFile object (every ordered pair / triple of the structure palette x getters before the next write yes/no x "
+    "object created by set_structure or by read); the state reached by reuse must equal the state reached from scratch "
+    "(lines and every getter); all are non-trivial. A failing multi-deviation case is reduced to "
     "its smallest failing sub-case before it is reported, so signatures name minimal causes."
 )
 ASSUMPTIONS = [
@@ -45,6 +48,8 @@ ASSUMPTIONS = [
     "(float32 box vectors cannot resolve 0.01 deg)",
     "altloc, TER, REMARK, assemblies are outside the statement and not generated",
     "bond types do not survive (PDB has none): ANY expected, component-dictionary type for dictionary bonds",
+    "reuse: the reference for a reused object is a fresh PDBFile given the same structure (differential oracle); the fresh "
+    "object itself is judged by the struct / bonds families",
 ]
 EXHAUSTIVE = True
 SHARD_TIMEOUT = {"quick": 600, "thorough": 2400}
@@ -779,6 +784,10 @@ def bounds(tier):
         "hybrid36_widths_complete": [1, 2, 3, 4] + ([5] if tier == "thorough" else []),
         "hybrid36_width5": "complete" if tier == "thorough" else "first and last 3000 values of each of the 53 blocks",
         "big_atoms": 100002,
+        "reuse": "operation sequences on ONE PDBFile object: {set_structure(X), read(X)} -> [all getters]? -> "
+                 "{set_structure(Y), refused set_structure(Z)}" + (" -> [all getters]? -> {set_structure(W), refused Z}"
+                                                                    if tier == "thorough" else "")
+                 + " -> all getters; X, Y, W over %d structures, Z over %d invalid ones" % (len(REUSE_ITEMS), len(REUSE_BAD)),
     }
 
 
@@ -797,6 +806,7 @@ def shards(tier, seed):
     out += bond_shards(tier)
     out += codec_shards(tier)
     out += [{"kind": "big", "h36": True}, {"kind": "big", "h36": False}]
+    out += reuse_shards(tier)
     big = [s for s in out if s["kind"] == "big" or (s["kind"] == "codec" and s.get("w") == 5)]
     rest = [s for s in out if s not in big]
     k = seed % max(1, len(rest))
@@ -823,6 +833,8 @@ def run_shard(shard, ctx):
         run_codec(shard, ctx)
     elif k == "big":
         run_big(shard, ctx)
+    elif k == "reuse":
+        run_reuse(shard, ctx)
     else:
         raise ValueError(shard)
 
@@ -851,6 +863,8 @@ def replay(case, ctx):
         replay_codec(ctx, case)
     elif k == "big":
         run_big(case, ctx)
+    elif k == "reuse":
+        run_reuse_case(ctx, case)
     else:
         raise ValueError(case)
 
@@ -1489,3 +1503,235 @@ def run_big(shard, ctx):
              sorted(map(sorted, want_pairs)), sorted((sorted(k), v) for k, v in rb.items()))
     if not ctx.samples:
         ctx.sample({"kind": "big", "h36": True, "records": [lines[99998], lines[99999], lines[-1]]})
+
+
+# ---------------------------------------------------------------------------
+# reuse: operation sequences on ONE PDBFile object (differential: reuse vs from scratch)
+# ---------------------------------------------------------------------------
+# name -> dict(stack, m, n, h36, extras)
+REUSE_ITEMS = {
+    "a1": {"m": 1, "n": 1, "stack": False},
+    "a3": {"m": 1, "n": 3, "stack": False},
+    "a7x": {"m": 1, "n": 7, "stack": False, "annot": True, "box": "tric"},
+    "a3h": {"m": 1, "n": 3, "stack": False, "h36": True, "big_ids": True},
+    "s2n3": {"m": 2, "n": 3, "stack": True},
+    "s3n1b": {"m": 3, "n": 1, "stack": True, "box": "ortho"},
+    "s2n4c": {"m": 2, "n": 4, "stack": True, "bonds": "star", "bfac": True},
+    "a4c": {"m": 1, "n": 4, "stack": False, "bonds": "chain"},
+}
+REUSE_BAD = {
+    "bad_chain5": {"m": 1, "n": 5, "stack": False, "bad": "chain"},
+    "bad_nan2": {"m": 2, "n": 2, "stack": True, "bad": "nan"},
+    "bad_b1": {"m": 1, "n": 1, "stack": False, "bad": "b_factor"},
+}
+
+
+def reuse_build(name):
+    """(biotite structure, hybrid36 flag) of a palette entry."""
+    import biotite.structure as struc
+
+    spec = REUSE_ITEMS.get(name) or REUSE_BAD[name]
+    k = (list(REUSE_ITEMS) + list(REUSE_BAD)).index(name)
+    m, n = spec["m"], spec["n"]
+    e = {
+        "m": m, "n": n,
+        "chain_id": ["A"] * n, "res_id": [1 + p for p in range(n)], "ins_code": [""] * n, "res_name": ["UNX"] * n,
+        "hetero": [False] * n, "atom_name": ["C%d" % (p + 1) for p in range(n)], "element": ["C"] * n,
+        "coord": [[[f32(100.0 * k + 10 * mm + 1.5 * p + 0.25 * ax) for ax in range(3)] for p in range(n)]
+                  for mm in range(m)],
+        "atom_id": None, "b_factor": None, "occupancy": None, "charge": None, "box": None, "b32": False,
+    }
+    if spec.get("annot"):
+        e["atom_id"] = [10 * (p + 1) for p in range(n)]
+        e["b_factor"] = [10.25 + p for p in range(n)]
+        e["occupancy"] = [0.5 + 0.0625 * p for p in range(n)]
+        e["charge"] = [(p % 3) - 1 for p in range(n)]
+    if spec.get("bfac"):
+        e["b_factor"] = [30.5 + p for p in range(n)]
+    if spec.get("big_ids"):
+        e["atom_id"] = [99999 + p for p in range(n)]
+        e["res_id"] = [9999 + p for p in range(n)]
+    if spec.get("box"):
+        e["box"] = [[f32(x) for x in row] for row in M.vectors_from_cell(*BOXES[spec["box"]])]
+    if spec.get("bonds") == "star":
+        e["hetero"] = [True] * n
+    bad = spec.get("bad")
+    if bad == "chain":
+        e["chain_id"][n - 1] = "AB"
+    elif bad == "nan":
+        e["coord"][m - 1][n - 1][2] = float("nan")
+    elif bad == "b_factor":
+        e["b_factor"] = [1000.0] * n
+    arr = build(e, spec["stack"])
+    if spec.get("bonds") == "star":
+        arr.bonds = struc.BondList(n, np.array([[0, q, 1] for q in range(1, n)], dtype=np.int64))
+    elif spec.get("bonds") == "chain":
+        arr.bonds = struc.BondList(n, np.array([[q, q + 1, 2] for q in range(n - 1)], dtype=np.int64))
+    return arr, bool(spec.get("h36"))
+
+
+def canon_result(x):
+    """JSON-like canonical form of whatever a getter returned (NaN-safe through repr)."""
+    import biotite.structure as struc
+
+    if isinstance(x, (struc.AtomArray, struc.AtomArrayStack)):
+        d = {"type": type(x).__name__, "coord": np.asarray(x.coord).tolist(), "shape": list(x.coord.shape)}
+        for cat in sorted(x.get_annotation_categories()):
+            d["annot:" + cat] = x.get_annotation(cat).tolist()
+        d["box"] = None if x.box is None else np.asarray(x.box).tolist()
+        d["bonds"] = None if x.bonds is None else sorted(map(tuple, x.bonds.as_array().tolist()))
+        return repr(sorted(d.items()))
+    if isinstance(x, np.ndarray):
+        return repr((list(x.shape), str(x.dtype), x.tolist()))
+    return repr(x)
+
+
+REUSE_GETTERS = [
+    ("get_model_count", lambda f: f.get_model_count()),
+    ("get_structure_all", lambda f: f.get_structure(extra_fields=EXTRA, include_bonds=True)),
+    ("get_structure_first", lambda f: f.get_structure(model=1, extra_fields=EXTRA, include_bonds=True)),
+    ("get_structure_last", lambda f: f.get_structure(model=-1, extra_fields=EXTRA)),
+    ("get_coord_all", lambda f: f.get_coord()),
+    ("get_coord_first", lambda f: f.get_coord(model=1)),
+    ("get_coord_last", lambda f: f.get_coord(model=-1)),
+    ("get_b_factor_all", lambda f: f.get_b_factor()),
+    ("get_b_factor_first", lambda f: f.get_b_factor(model=1)),
+    ("get_remark", lambda f: f.get_remark(350)),
+]
+
+
+def reuse_observe(f):
+    out = []
+    for name, fn in REUSE_GETTERS:
+        try:
+            out.append((name, "ok", canon_result(fn(f))))
+        except Exception as x:  # noqa: BLE001
+            out.append((name, "exc", type(x).__name__))
+    return out
+
+
+_REUSE_REF = {}
+
+
+def reuse_ref(name):
+    """Lines and getter results of a FRESH PDBFile that was given the structure."""
+    from biotite.structure.io.pdb import PDBFile
+
+    if name not in _REUSE_REF:
+        arr, h36 = reuse_build(name)
+        f = PDBFile()
+        f.set_structure(arr, hybrid36=h36)
+        _REUSE_REF[name] = ([str(x) for x in f.lines], reuse_observe(f))
+    return _REUSE_REF[name]
+
+
+def reuse_shards(tier):
+    out = [{"kind": "reuse", "depth": 2}]
+    if tier == "thorough":
+        out += [{"kind": "reuse", "depth": 3, "first": x} for x in REUSE_ITEMS]
+    return out
+
+
+def reuse_cases(shard):
+    seconds = [["set", y] for y in REUSE_ITEMS] + [["refuse", z] for z in REUSE_BAD]
+    firsts = [x for x in REUSE_ITEMS if shard.get("first") in (None, x)]
+    for origin in ("set", "read"):
+        for x in firsts:
+            for p1 in (False, True):
+                for op2 in seconds:
+                    head = [[origin, x]] + ([["probe"]] if p1 else []) + [op2]
+                    if shard["depth"] == 2:
+                        yield {"kind": "reuse", "ops": head}
+                        continue
+                    for p2 in (False, True):
+                        for op3 in seconds:
+                            yield {"kind": "reuse", "ops": head + ([["probe"]] if p2 else []) + [op3]}
+
+
+def run_reuse(shard, ctx):
+    for case in reuse_cases(shard):
+        ctx.ev(1, 1)
+        ctx.count("refused" if case["ops"][-1][0] == "refuse" else "accepted")
+        run_reuse_case(ctx, case, count=True)
+
+
+def cmp_word(a, b):
+    return "same" if a == b else ("fewer" if b < a else "more")
+
+
+def run_reuse_case(ctx, case, count=False):
+    """Execute one operation sequence on one object.  Returns True if a violation was reported."""
+    from biotite.structure.io.pdb import PDBFile
+
+    ops = case["ops"]
+    obj = None
+    content = None
+    origin = ops[0][0]
+    probed = False
+    trans = "initial"
+
+    def klass():
+        return "%s_%s_%s" % (origin, "getters_used_before" if probed else "no_getter_before", trans)
+
+    def fail(mode, what, exp, obs):
+        ctx.violation("PDBFile.reuse|%s|%s" % (mode, klass()), what, case, expected=exp, observed=obs)
+        return True
+
+    def check_getters(where):
+        ref = reuse_ref(content)[1]
+        got = reuse_observe(obj)
+        for (name, st, val), (_, rst, rval) in zip(got, ref):
+            if (st, val) != (rst, rval):
+                return fail("stale_" + name, "%s on a reused PDBFile differs from a fresh PDBFile holding the same "
+                            "structure (%s)" % (name, where), [rst, rval[:300]], [st, val[:300]])
+        return False
+
+    for k, op in enumerate(ops):
+        if op[0] == "read":
+            obj = PDBFile.read(io.StringIO("\n".join(reuse_ref(op[1])[0]) + "\n"))
+            content = op[1]
+        elif op[0] == "probe":
+            if check_getters("before the next write"):
+                return True
+            probed = True
+        elif op[0] == "set":
+            if obj is None:
+                obj = PDBFile()
+            arr, h36 = reuse_build(op[1])
+            if content is not None:
+                a, b = REUSE_ITEMS[content], REUSE_ITEMS[op[1]]
+                trans = "atoms_%s_models_%s" % (cmp_word(a["n"], b["n"]), cmp_word(a["m"], b["m"]))
+            try:
+                obj.set_structure(arr, hybrid36=h36)
+            except Exception as x:  # noqa: BLE001
+                return fail("unexpected_" + type(x).__name__, "set_structure of a valid structure raised on a reused object",
+                            "file written", "%s: %s" % (type(x).__name__, str(x)[:200]))
+            content = op[1]
+            lines = [str(x).rstrip() for x in obj.lines]
+            want = [x.rstrip() for x in reuse_ref(content)[0]]
+            if lines != want:
+                return fail("lines_differ", "lines after set_structure on a reused object differ from a fresh object's",
+                            want[:6], lines[:6])
+        elif op[0] == "refuse":
+            arr, h36 = reuse_build(op[1])
+            a, b = REUSE_ITEMS[content], REUSE_BAD[op[1]]
+            trans = "refused_%s_atoms_%s_models_%s" % (b["bad"], cmp_word(a["n"], b["n"]), cmp_word(a["m"], b["m"]))
+            before = [str(x) for x in obj.lines]
+            try:
+                obj.set_structure(arr, hybrid36=h36)
+                raised = False
+            except Exception:  # noqa: BLE001
+                raised = True
+            if not raised:
+                return fail("not_refused", "invalid structure was written", "an exception", [str(x) for x in obj.lines][:4])
+            if [str(x) for x in obj.lines] != before:
+                return fail("refusal_changed_lines", "refused set_structure changed the lines of a file holding a valid "
+                            "structure", before[:6], [str(x) for x in obj.lines][:6])
+        else:
+            raise ValueError(op)
+    bad = check_getters("after the last operation")
+    if count:
+        ctx.outcome(("reuse", content, ops[-1][0], bad))
+        if not bad and len(ctx.samples) < 1 and len(ops) >= 3:
+            ctx.sample({**case, "final_content": content, "getters_compared": [g[0] for g in REUSE_GETTERS]})
+    return bad
